@@ -348,6 +348,36 @@ def check_C14(nodes, R):
                             return {"what": what, "expected": lab(exp), "got": repr(e)}
                     except Exception as e:
                         return {"what": what, "expected": lab(exp), "got": repr(e)}
+    # the library's own node classes: a violated bound surfaces as CountError also when names are tuples (the message carries
+    # repr(result)), and a SymlinkNode whose target lacks the attribute is skipped like any other node
+    from anytree import AnyNode, Node, SymlinkNode
+    top = Node(("t", 1))
+    Node(("a", 2), parent=top)
+    Node((), parent=top)
+    tgt = AnyNode(id="t")
+    r = AnyNode(id="r", foo=1)
+    SymlinkNode(tgt, parent=r)
+    AnyNode(id="x", foo=1, parent=r)
+    for mod in (search, cachedsearch):
+        for what, call in (("find over tuple-named Nodes", lambda: mod.find(top, lambda n: True)),
+                           ("findall(maxcount=1) over tuple-named Nodes", lambda: mod.findall(top, maxcount=1)),
+                           ("findall(mincount=9) over tuple-named Nodes", lambda: mod.findall(top, mincount=9))):
+            try:
+                got = call()
+                return {"what": "%s.%s" % (mod.__name__, what), "expected": "CountError", "got": repr(got)}
+            except search.CountError:
+                pass
+            except Exception as e:
+                return {"what": "%s.%s" % (mod.__name__, what), "expected": "CountError", "got": repr(e)}
+        try:
+            got = mod.findall_by_attr(r, 1, name="foo")
+            if [n.id for n in got] != ["r", "x"]:
+                return {"what": "%s.findall_by_attr over a tree with a SymlinkNode" % mod.__name__, "expected": "['r', 'x']", "got": repr(got)}
+            got = mod.find_by_attr(r, "t", name="id")
+            if got is not tgt and not isinstance(got, SymlinkNode):
+                return {"what": "%s.find_by_attr(id='t') through a SymlinkNode" % mod.__name__, "expected": "the link (forwarded id)", "got": repr(got)}
+        except Exception as e:
+            return {"what": "%s.find*_by_attr over a tree with a SymlinkNode" % mod.__name__, "expected": "no error", "got": repr(e)}
     return None
 
 
